@@ -255,3 +255,24 @@ Example C19_derive_init_handover_idle_nonvacuous :
   option_map (fun t => fst (fst (q_init t))) (nth_error (d_root (cs_db (fst (fst r')))) 1) = Some true.
 Proof. exact derive_init_handover_idle_nonvacuous. Qed.
 
+(* converse (Table/ClientsRun8.v): until the loop's marking leg the derived table keeps the loop's initializer pending, in
+   the root and in every open transaction, so it reports itself initialized only AFTER that leg - provided the harness
+   does not complete the loop's initializer itself *)
+From SV Require Import Table.ClientsRun8.
+Theorem C19_derived_table_not_initialized_before_the_mark : forall n out cs s outs ops ds,
+  (out < n)%nat -> forallb (cop_okI0 out) cs = true ->
+  crun (init_csys n 0) cs = (s, outs, ops) -> cs_d s = Some ds -> dv_marked ds = false ->
+  (exists tout w p, nth_error (d_root (cs_db s)) out = Some tout /\ t_init tout = Some (w, p) /\ In derive_name p /\
+                    fst (fst (q_init tout)) = false) /\
+  (forall es old te b, d_txn (cs_db s) = Some (es, old) -> nth_error es out = Some (te, b) ->
+                       exists w p, t_init te = Some (w, p) /\ In derive_name p).
+Proof. exact derive_unmarked_not_initialized. Qed.
+Print Assumptions C19_derived_table_not_initialized_before_the_mark.
+
+Theorem C19_derived_table_initialized_only_after_the_mark : forall n out cs s outs ops ds tout,
+  (out < n)%nat -> forallb (cop_okI0 out) cs = true ->
+  crun (init_csys n 0) cs = (s, outs, ops) -> cs_d s = Some ds ->
+  nth_error (d_root (cs_db s)) out = Some tout -> fst (fst (q_init tout)) = true -> dv_marked ds = true.
+Proof. exact derive_initialized_only_after_mark. Qed.
+Print Assumptions C19_derived_table_initialized_only_after_the_mark.
+
